@@ -5,7 +5,7 @@
 set -u
 WT=/tmp/wt-mut
 [ -d "$WT" ] || git -C /repo worktree add --detach "$WT" HEAD >/dev/null 2>&1
-git -C "$WT" checkout -q -- . 
+git -C "$WT" checkout -q -- . ; git -C "$WT" checkout -q --detach $(git -C /repo rev-parse HEAD)
 if [ "$1" = "-e" ]; then sed -i "$2" "$WT/$3" || exit 2; shift 3; else git -C "$WT" apply "$1" || exit 2; shift; fi
 [ "$1" = "--" ] && shift
 if git -C "$WT" diff --quiet; then echo "MUTATION DID NOT CHANGE ANYTHING"; exit 2; fi
